@@ -687,6 +687,35 @@ class Ref:
                 cur = prod(cur)
         return gen()
 
+    def generateManyTake(self, o, a):
+        if is_iterator(o) or isinstance(o, (Ordering, View, DSet)) or isinstance(o, dict) and not isinstance(o, FD):
+            raise OOD()
+        prod = lam(a['l'])
+        sel = lam(a['l2']) if a.get('l2') else (lambda x: x)
+        decycle, depth_first = a['b'], a['b2']
+
+        def gen():
+            # tree traversal: children of a node come from the producer; breadth first unless depthFirst
+            queue, past, steps = [o], set(), 0
+            while queue:
+                steps += 1
+                if steps > 400:
+                    raise OOD()
+                item = queue.pop(0)
+                if decycle:
+                    if item in past:
+                        continue
+                    past.add(item)
+                yield sel(item)
+                kids = prod(item)
+                if isinstance(kids, frozenset) and len(kids) > 1:
+                    raise OOD()
+                if not is_iterable(kids):
+                    raise TypeError('not iterable')
+                kids = list(kids)
+                queue = kids + queue if depth_first else queue + kids
+        return itertools.islice(gen(), a['n'])
+
     # ---- collections.py
     def list(self, o, a):
         if isinstance(o, (Ordering, View)):
@@ -1122,7 +1151,7 @@ def optv(a, k):
 def render_op(r, a):
     """yaql text of op `a` applied to the receiver text `r`"""
     n = a['op']
-    m = lambda name, *ps: '%s.%s(%s)' % (r, name, args(*ps))
+    m = lambda name, *ps: '%s.%s(%s)' % (r, a.get('alias') if name == n and a.get('alias') else name, args(*ps))
     if n in ('where', 'select', 'selectMany', 'takeWhile', 'skipWhile', 'indexWhere', 'lastIndexWhere',
              'splitWhere', 'sliceWhere', 'orderBy', 'orderByDescending', 'thenBy', 'thenByDescending'):
         return m(n, rlw(a['l']))
@@ -1184,6 +1213,10 @@ def render_op(r, a):
     if n == 'generate':
         return 'generate(%s)' % args(r, rlw(a['l']), rlw(a['l2']), rlw(a['l3']) if a.get('l3') else None,
                                      'decycle => true' if a['b'] else None)
+    if n == 'generateManyTake':
+        return 'generateMany(%s).take(%s)' % (args(r, rlw(a['l']), rlw(a['l2']) if a.get('l2') else None,
+                                                    'decycle => true' if a['b'] else None,
+                                                    'depthFirst => true' if a['b2'] else None), lit(a['n']))
     if n == 'list':
         return 'list(%s)' % r
     if n == 'listLit':
@@ -1211,7 +1244,7 @@ def render_op(r, a):
     if n == 'plusLeft':
         return '(%s + %s)' % (lit(a['v']), r)
     if n == 'timesInt':
-        return '(%s * %s)' % (r, lit(a['n']))
+        return '(%s * %s)' % ((lit(a['n']), r) if a.get('alias') == 'intByList' else (r, lit(a['n'])))
     if n in ('isList', 'isDict', 'isSet'):
         return '%s(%s)' % (n, r)
     if n == 'delete':
@@ -1285,7 +1318,7 @@ def op_json(a, enc):
             j[k] = None if v is None else lam_json(v, enc)
         elif k in ('f2', 'g2'):
             j[k] = None if v is None else lam2_json(v, enc)
-        elif k in ('n', 'm', 'k', 'b', 'name', 'names'):
+        elif k in ('n', 'm', 'k', 'b', 'b2', 'name', 'names', 'alias'):
             j[k] = v
         elif k in ('v', 'w'):
             j[k] = enc(v)
